@@ -59,7 +59,8 @@ def gen_op(rng, w, path, kind='op'):
         return {'a': kind, 'op': 'index', 'ch': path, 'i': rng.randint(-ln - 1, ln)}
     if k < 0.75:
         off = rng.randint(0, ln + 1)
-        return {'a': kind, 'op': 'read_data', 'ch': path, 'offset': off, 'length': rng.choice([None, 0, 1, rng.randint(0, ln + 1)])}
+        return {'a': kind, 'op': 'read_data', 'ch': path, 'offset': off, 'length': rng.choice([None, 0, 1, rng.randint(0, ln + 1)]),
+                'scaled': rng.random() >= 0.25}
     return {'a': kind, 'op': 'slice', 'ch': path, 'start': rng.choice([None, rng.randint(-ln - 1, ln + 1)]),
             'stop': rng.choice([None, rng.randint(-ln - 1, ln + 1)]), 'step': rng.choice([None, 1, 2, -1])}
 
@@ -92,7 +93,10 @@ def gen_actions(rng, w, nmax=60, w2=None):
             elif k < 0.75:
                 off = rng.randint(0, ln + 1)
                 acts.append({'a': 'op', 'op': 'read_data', 'ch': path, 'offset': off,
-                             'length': rng.choice([None, 0, 1, rng.randint(0, ln + 1)])})
+                             'length': rng.choice([None, 0, 1, rng.randint(0, ln + 1)]),
+                             # raw, unscaled values of a window (what read_data is for): the chunk kept for integer
+                             # indexing holds scaled data
+                             'scaled': rng.random() >= 0.25})
             else:
                 acts.append({'a': 'op', 'op': 'slice', 'ch': path, 'start': rng.choice([None, rng.randint(-ln - 1, ln + 1)]),
                              'stop': rng.choice([None, rng.randint(-ln - 1, ln + 1)]), 'step': rng.choice([None, 1, 2, -1])})
@@ -252,6 +256,7 @@ def execute(case):
             src.fail_local_interrupt = case.get('eio_kind') == 'interrupt'
         res.backend = case['backend'] if eio is None else 'simstream'
         fulls = {p: _lazy.model_full(c, raw_ts) for p, c in w.chans.items()}
+        raw_fulls = dict(fulls)          # what read_data(scaled=False) is compared with
         from .. import scalemodel
         scaled = [p for p in w.chans if w.chans[p].type not in (None, 'daqmx') and (
             cut is not None or scalemodel.channel_scales(w, p) is not None)]
@@ -265,6 +270,9 @@ def execute(case):
                 for p in scaled:
                     r_, exc_, _eo = ops.try_op(lambda: ops.norm(ops.chan(fresh, w, p)[:]))
                     fulls[p] = r_ if (r_ is not None and r_[0] in ('arr', 'strs', 'rawts')) else None
+                    if cut is not None:
+                        r_, exc_, _eo = ops.try_op(lambda: ops.norm(ops.chan(fresh, w, p).read_data(scaled=False)))
+                        raw_fulls[p] = r_ if (r_ is not None and r_[0] in ('arr', 'strs', 'rawts')) else None
             finally:
                 fresh.close()
         keeper = ops.Keeper()
@@ -348,6 +356,9 @@ def execute(case):
                 else:
                     op = {k: v for k, v in a.items() if k != 'a'}
                     full = fulls[op['ch']]
+                    if op['op'] == 'read_data' and op.get('scaled', True) is False:
+                        full = raw_fulls[op['ch']]
+                        res.probe('unscaled-window')
                     if w.chans[op['ch']].type == 'daqmx':
                         full = _lazy.op_full(w, w.chans[op['ch']], op, raw_ts)
                         res.probe('daqmx-op')
